@@ -3,6 +3,7 @@ package ref
 import (
 	"regexp"
 	"strings"
+	"time"
 )
 
 // Criteria operators of the specification-level criteria tree.
@@ -193,6 +194,8 @@ func DeepEqual(a, b interface{}) bool {
 		}
 		return true
 	}
-	// time.Time
-	return Compare(a, b) == 0
+	// time.Time: same instant (and, in native replays, the same zone offset)
+	ta, okA := a.(time.Time)
+	tb, okB := b.(time.Time)
+	return okA && okB && sameTime(ta, tb)
 }
